@@ -246,6 +246,8 @@ func runC09(c *Ctx) {
 		{"http-and-dirs", refgraph.Options{Docs: 6, Defs: 2, Elements: true, Cycles: true, RefP: 0.6, Spellings: true, HTTP: true}},
 		{"multi-doc-cyclic", refgraph.Options{Docs: 3, Defs: 3, Cycles: true, RefP: 0.6, Spellings: true}},
 		{"nasty-names", refgraph.Options{Docs: 2, Defs: 3, Elements: true, Cycles: true, RefP: 0.6, NastyNames: true, NestedPtrs: true}},
+		{"same-path-twins", refgraph.Options{Docs: 5, Defs: 2, Elements: true, Cycles: true, RefP: 0.6, Spellings: true, Twins: true}},
+		{"same-path-twins-acyclic", refgraph.Options{Docs: 5, Defs: 2, Elements: true, RefP: 0.7, Spellings: true, Twins: true}},
 	}
 	for i := 0; i < n; i++ {
 		fam := fams[i%len(fams)]
@@ -326,6 +328,9 @@ func jsonOf(x interface{}) string {
 	return string(b)
 }
 
+// c10SharedCache: a caller-owned cache that lives across all roots of a C10 run.
+var c10SharedCache = newTCache(&tracer{})
+
 func runC10(c *Ctx) {
 	c.Res.Rule = "every definition, parameter and response of random roots (single-document for the *WithRoot / ExpandSchema entry points, multi-document for ExpandSchemaWithBasePath / ExpandParameter / ExpandResponse), expanded through each entry point with a typed root, a generic (map) root, a nil root plus base location, and a pre-filled cache; oracle: the result denotes the same tree as the element in the context of the root (independent unfolding to depth 6), remaining $refs resolve against the root and lie on a cycle, the root document (JSON before/after) and the option structure are unchanged; the proved-sound checker must accept every result; non-trivial = element with at least one reference; distinct by (world, element, entry point)"
 	n := c.N(120, 3000)
@@ -350,7 +355,8 @@ func runC10(c *Ctx) {
 		var vs []variant
 		vs = append(vs, variant{"ExpandSchemaWithBasePath", "nil"}, variant{"ExpandParameter", "nil"}, variant{"ExpandResponse", "nil"})
 		if single {
-			vs = append(vs, variant{"ExpandSchema", "typed"}, variant{"ExpandSchema", "generic"},
+			vs = append(vs, variant{"ExpandSchema", "typed+reused-cache"}, variant{"ExpandParameterWithRoot", "typed+reused-cache"}, variant{"ExpandResponseWithRoot", "typed+reused-cache"},
+				variant{"ExpandSchema", "typed"}, variant{"ExpandSchema", "generic"},
 				variant{"ExpandParameterWithRoot", "typed"}, variant{"ExpandParameterWithRoot", "generic"},
 				variant{"ExpandResponseWithRoot", "typed"}, variant{"ExpandResponseWithRoot", "generic"})
 		}
@@ -377,7 +383,13 @@ func runC10(c *Ctx) {
 				var rootArg interface{}
 				var typed *spec.Swagger
 				var generic map[string]interface{}
+				var reused spec.ResolutionCache
 				switch v.root {
+				case "typed+reused-cache":
+					// one caller-owned cache serving calls against DIFFERENT roots, one after the other
+					typed, _ = decodeSwagger(rootDoc)
+					rootArg = typed
+					reused = c10SharedCache
 				case "typed":
 					typed, _ = decodeSwagger(rootDoc)
 					rootArg = typed
@@ -407,7 +419,7 @@ func runC10(c *Ctx) {
 					case "ExpandSchema":
 						var s spec.Schema
 						_ = json.Unmarshal([]byte(elem.Text()), &s)
-						err = spec.ExpandSchema(&s, rootArg, nil)
+						err = spec.ExpandSchema(&s, rootArg, reused)
 						out = &s
 					case "ExpandParameter":
 						var p spec.Parameter
@@ -420,7 +432,7 @@ func runC10(c *Ctx) {
 					case "ExpandParameterWithRoot":
 						var p spec.Parameter
 						_ = json.Unmarshal([]byte(elem.Text()), &p)
-						err = spec.ExpandParameterWithRoot(&p, rootArg, nil)
+						err = spec.ExpandParameterWithRoot(&p, rootArg, reused)
 						out = &p
 					case "ExpandResponse":
 						var p spec.Response
@@ -433,7 +445,7 @@ func runC10(c *Ctx) {
 					case "ExpandResponseWithRoot":
 						var p spec.Response
 						_ = json.Unmarshal([]byte(elem.Text()), &p)
-						err = spec.ExpandResponseWithRoot(&p, rootArg, nil)
+						err = spec.ExpandResponseWithRoot(&p, rootArg, reused)
 						out = &p
 					}
 				})
